@@ -361,6 +361,53 @@ func (b *Built) naturalValue(t TypeRef, tag, fn string, oc Outcome) interface{} 
 // wrongKind is unhashable on purpose (a map look-up keyed by it panics)
 type wrongKind struct{ X []int }
 
+// goInt returns 5 (or 3000000000 when big) in the Go representation g.
+func goInt(g string, big bool) interface{} {
+	var n int64 = 5
+	if big {
+		n = 3000000000
+	}
+	switch g {
+	case "i8":
+		return int8(n)
+	case "i16":
+		return int16(n)
+	case "i32":
+		return int32(n)
+	case "i64":
+		return n
+	case "u8":
+		return uint8(n)
+	case "u16":
+		return uint16(n)
+	case "u32":
+		return uint32(n)
+	case "u64":
+		return uint64(n)
+	case "uint":
+		return uint(n)
+	case "f32":
+		return float32(n)
+	case "f64":
+		return float64(n)
+	case "pint":
+		v := int(n)
+		return &v
+	case "pi64":
+		return &n
+	case "pu32":
+		v := uint32(n)
+		return &v
+	case "pf64":
+		v := float64(n)
+		return &v
+	case "nilp":
+		var p *int
+		return p
+	}
+	return int(n)
+}
+
 func isTypeOfFor(name string, enabled bool) graphql.IsTypeOfFn {
 	if !enabled {
 		return nil
@@ -464,6 +511,8 @@ func (b *Built) resolver(tn string, fd FieldDef) graphql.FieldResolveFn {
 			return wrongKind{X: []int{1}}, nil
 		case "big":
 			return 3000000000, nil
+		case "goint":
+			return goInt(oc.G, oc.Big), nil
 		case "badenum":
 			return EInt("nope"), nil
 		case "wrongitem":
